@@ -9,13 +9,16 @@ EXTENDS Decode, Json, IOUtils, SequencesExt
 
 CONSTANTS SweepFirst,      \* how many u8 fields per layout get the full 0..255 sweep
           MaxFields,       \* layouts longer than this are mutated at head, tail and a sample
-          TruncEveryMax    \* encodings up to this many bytes are also truncated at every byte offset
+          TruncEveryMax,   \* encodings up to this many bytes are also truncated at every byte offset
+          RepeatMaxBytes   \* a repeated group is re-encoded with at most this many bytes of copies
 
 Recs == ndJsonDeserialize(IOEnv.LAYOUTS)
 LayIdx == {i \in 1..Len(Recs) : Recs[i].t = "layout"}
 TargetIdx == {i \in 1..Len(Recs) : Recs[i].t = "target"}
+FamilyIdx == {i \in 1..Len(Recs) : Recs[i].t = "family"}
 NLay == Cardinality(LayIdx)
-Off == Cardinality(TargetIdx)          \* targets come first in the file
+NTargets == Cardinality(TargetIdx)     \* targets come first in the file, then the families, then the layouts
+Off == NTargets + Cardinality(FamilyIdx)
 LayoutAt(n) == Recs[Off + n]            \* n in 1..NLay; LayoutAt(n).id = n - 1
 
 \* donor of a splice: a layout of another decoder, a fixed stride away
@@ -28,7 +31,7 @@ gvars == <<lay, fld, vars>>
 GInit == lay = 0 /\ fld = 0 /\ Init   \* (the protocol variables of Decode.tla are unused here)
 \* the harness implements exactly the catalogue of post-decode steps of the specification
 StepsAgree == \A i \in TargetIdx : Recs[i].steps = PostSteps(Recs[i].dec)
-IdentWellFormed == \A n \in 1..NLay : IdentOK(LayoutAt(n))
+IdentWellFormed == \A n \in 1..NLay : IdentOK(LayoutAt(n)) /\ GroupsOK(LayoutAt(n)) /\ EraOK(LayoutAt(n))
 PickLayout == lay = 0 /\ UNCHANGED vars /\ \E n \in 1..NLay : lay' = n /\ fld' = 0
 PickField == lay > 0 /\ fld = 0 /\ \E i \in FieldsOf(LayoutAt(lay), MaxFields) : fld' = i /\ UNCHANGED <<lay, vars>>
 GNext == PickLayout \/ PickField
@@ -37,13 +40,27 @@ GSpec == GInit /\ [][GNext]_gvars
 Ops(n, i) == FieldOps(LayoutAt(n), i, Donor(n), SweepFirst)
 PlanWellFormed == (lay > 0 /\ fld > 0) => PlanOK(LayoutAt(lay), fld, Ops(lay, fld))
 
-BoundsTable == [i \in TargetIdx |->
-                  [dec |-> Recs[i].dec,
-                   auto |-> [a |-> AllocA(Recs[i].dec, "auto"), b |-> AllocB(Recs[i].dec, "auto")],
-                   main |-> [a |-> AllocA(Recs[i].dec, "main"), b |-> AllocB(Recs[i].dec, "main")]]]
+BoundsOf(d, ct) == [a |-> AllocA(d, ct), b |-> AllocB(d, ct), da |-> DecA(d, ct)]
+BoundsTable == [i \in TargetIdx |-> [dec |-> Recs[i].dec, auto |-> BoundsOf(Recs[i].dec, "auto"), main |-> BoundsOf(Recs[i].dec, "main"),
+                                     test |-> BoundsOf(Recs[i].dec, "test")]]
+\* per chain type, by frame type 0..29 (29 = any unknown type): the largest announced length the header check admits and the
+\* constant of the body's decoder
+FrameRow(ct) == [k \in 1..30 |-> [ty |-> k - 1, admit |-> FrameAdmit(k - 1, ct), a |-> FrameBodyA(k - 1)]]
+FramesTable == [auto |-> FrameRow("auto"), main |-> FrameRow("main"), test |-> FrameRow("test")]
+\* (family, chain type, count) of the many-valid-items inputs
+BigOf(i) == UNION {{[fam |-> Recs[i].fam, ct |-> Recs[i].cts[j], n |-> n] : n \in BigCounts(Recs[i], Recs[i].cts[j])} : j \in 1..Len(Recs[i].cts)}
 
 Emit ==
-    /\ (lay = 0 => PrintT(<<"BOUNDS", ToJson([i \in 1..Off |-> BoundsTable[i]])>>))
+    /\ (lay = 0 => PrintT(<<"BOUNDS", ToJson([i \in 1..NTargets |-> BoundsTable[i]])>>))
+    /\ (lay = 0 => PrintT(<<"FRAMES", ToJson(FramesTable)>>))
+    /\ (lay = 0 => \A i \in FamilyIdx : \A b \in BigOf(i) : PrintT(<<"BIG", ToJson(b)>>))
+    /\ (lay > 0 /\ fld = 0 =>
+          \A o \in RepeatOps(LayoutAt(lay), RepeatMaxBytes) :
+              PrintT(<<"PLAN", ToJson([lay |-> LayoutAt(lay).id, f |-> o.c, ops |-> <<o>>])>>))
+    /\ (lay > 0 /\ fld = 0 /\ LayoutAt(lay).hv > 0 =>
+          PrintT(<<"PLAN", ToJson([lay |-> LayoutAt(lay).id, f |-> LayoutAt(lay).hv, ops |-> SetToSeq(EraOps(LayoutAt(lay)))])>>))
+    /\ (lay > 0 /\ fld = 0 /\ LayoutAt(lay).fty >= 0 =>
+          PrintT(<<"PLAN", ToJson([lay |-> LayoutAt(lay).id, f |-> 4, ops |-> SetToSeq(FrameLenOps(LayoutAt(lay)))])>>))
     /\ (lay > 0 /\ fld = 0 =>
           PrintT(<<"PLAN", ToJson([lay |-> LayoutAt(lay).id, f |-> 1,
                                    ops |-> IF LayoutAt(lay).len <= TruncEveryMax THEN <<[op |-> "trunc_every"]>> ELSE <<>>])>>))
